@@ -336,6 +336,9 @@ def _build_patches():
                 raise ValueError("cannot mmap an empty file")
             return _SimMap(data if length == 0 else data[:length])
 
+    # (the name `mmap` in a module may be the module - `import mmap` - or the class - `from mmap import mmap`: the proxy
+    #  answers to both)
+    _MmapProxy.__call__ = lambda self, *a, **kw: _MmapProxy.mmap(*a, **kw)
     mmap_proxy = _MmapProxy()
     io_proxy = _IoProxy()
     storage_mods = (molli.storage.ukvfile, molli.storage.backends, molli.storage.collection, molli.chem.library)
